@@ -45,7 +45,6 @@ class SpecDataset(metaclass=Plugin):
 
     def __init__(self, xarray_dset):
         self.dset = xarray_dset
-        self._wrapper()
         self.supported_dims = [
             attrs.TIMENAME,
             attrs.SITENAME,
@@ -56,23 +55,22 @@ class SpecDataset(metaclass=Plugin):
         ]
 
     def __getattr__(self, attr):
+        if attr == "dset":
+            raise AttributeError(attr)
+        # Public SpecArray attributes are looked up on the current efth variable at
+        # call time so that they follow in-place edits of the dataset
+        if not attr.startswith("_") and attrs.SPECNAME in self.dset:
+            spec = self.dset[attrs.SPECNAME].spec
+            if hasattr(type(spec), attr):
+                return getattr(spec, attr)
         return getattr(self.dset, attr)
+
+    def __dir__(self):
+        names = [n for n in dir(SpecArray) if not n.startswith("_")]
+        return sorted(set(list(super().__dir__()) + names))
 
     def __repr__(self):
         return re.sub(r"<.+>", f"<{self.__class__.__name__}>", str(self.dset))
-
-    def _wrapper(self):
-        """Wraper around SpecArray methods.
-
-        Allows calling public SpecArray methods from SpecDataset.
-        For example:
-            self.spec.hs() becomes equivalent to self.efth.spec.hs()
-
-        """
-        for method_name in dir(self.dset[attrs.SPECNAME].spec):
-            if not method_name.startswith("_"):
-                method = getattr(self.dset[attrs.SPECNAME].spec, method_name)
-                setattr(self, method_name, method)
 
     def _check_and_stack_dims(self):
         """Ensure dimensions are suitable for dumping in some ascii formats.
